@@ -77,7 +77,7 @@ def matches_known(pid, event, known):
     return None
 
 
-def validate_chunks(pid, mode, chunks, outdir, tag, pairs=None, jobs=8):
+def validate_chunks(pid, mode, chunks, outdir, tag, pairs=None, jobs=8, tier="quick"):
     """Validate trace chunks in parallel.  Returns (results, tool_errors)."""
     results = []
     errors = []
@@ -86,7 +86,7 @@ def validate_chunks(pid, mode, chunks, outdir, tag, pairs=None, jobs=8):
         meta = os.path.join(outdir, "meta_%s_%03d" % (tag, i))
         logp = os.path.join(outdir, "tlc_%s_%03d.log" % (tag, i))
         t2 = pairs[i] if pairs else None
-        r = tlc.validate_trace(ch, mode, meta, logp, trace2=t2)
+        r = tlc.validate_trace(ch, mode, meta, logp, trace2=t2, tier=tier)
         shutil.rmtree(meta, ignore_errors=True)
         r["chunk"] = ch
         return r
@@ -195,30 +195,51 @@ def run_property(pid, tier, seed, replay=None):
         mc_res, errs = run_mcs(pid, tier, outdir)
         tool_errors += errs
     # script
-    if replay:
-        script = replay
-    else:
-        script = os.path.join(outdir, "script.ndjson")
-        g = vdrive(profiles[0], ["gen", pid, tier, str(seed), script])
-        log("[gen] %s" % g)
     all_results = []
     all_chunks = []
     viol_records = []
     mode = spec.get("mode", pid)
-    for prof in profiles:
-        prefix = os.path.join(outdir, "tr_" + prof)
-        r = vdrive(prof, ["run", script, prefix, "--chunk-weight", str(spec.get("chunk_weight", 60000))])
-        log("[run] %s: %s" % (prof, r))
-        chunks = sorted(glob.glob(prefix + ".*.ndjson"))
-        results, errs = validate_chunks(pid, mode, chunks, outdir, prof)
-        tool_errors += errs
-        all_results += results
-        all_chunks += chunks
-        for res in results:
-            for v in res["viols"]:
-                ep, ev = episode_of(res["chunk"], v[1])
-                viol_records.append({"profile": prof, "chunk": res["chunk"], "line": v[1], "op": v[2],
-                                     "why": v[3], "episode": ep, "event": json.loads(ev)})
+    phases = spec.get("phases_thorough" if tier == "thorough" and "phases_thorough" in spec else "phases")
+    if not phases:
+        phases = [{"gen": pid, "runs": [(p, "both") for p in profiles],
+                   "validate": [(i, None) for i in range(len(profiles))]}]
+    if replay:
+        phases = [dict(phases[0], script=replay)] if len(phases) == 1 else [dict(ph, script=replay) for ph in phases[:1]]
+    scripts = []
+    for pi, ph in enumerate(phases):
+        if "script" in ph:
+            script = ph["script"]
+        else:
+            script = os.path.join(outdir, "script_%d.ndjson" % pi)
+            g = vdrive(profiles[0], ["gen", ph["gen"], tier, str(seed), script])
+            log("[gen] %s: %s" % (ph["gen"], g))
+            scripts.append(script)
+        run_chunks = []
+        for ri, (prof, ty) in enumerate(ph["runs"]):
+            prefix = os.path.join(outdir, "tr_p%d_r%d_%s_%s" % (pi, ri, prof, ty))
+            r = vdrive(prof, ["run", script, prefix, "--ty", ty, "--chunk-weight", str(spec.get("chunk_weight", 60000))])
+            log("[run] %s/%s: %s" % (prof, ty, r))
+            run_chunks.append(sorted(glob.glob(prefix + ".*.ndjson")))
+        for (ri, di) in ph["validate"]:
+            chunks = run_chunks[ri]
+            pairs = run_chunks[di] if di is not None else None
+            if pairs is not None and len(pairs) != len(chunks):
+                tool_errors.append("the two runs of phase %d split into different numbers of chunks" % pi)
+                continue
+            prof = ph["runs"][ri][0]
+            results, errs = validate_chunks(pid, mode, chunks, outdir, "p%d_r%d" % (pi, ri), pairs=pairs, tier=tier)
+            tool_errors += errs
+            all_results += results
+            for res in results:
+                for v in res["viols"]:
+                    ep, ev = episode_of(res["chunk"], v[1])
+                    viol_records.append({"profile": prof, "chunk": res["chunk"], "line": v[1], "op": v[2],
+                                         "why": v[3], "episode": ep, "event": json.loads(ev),
+                                         "queries": [q for q in res["queries"] if q[1] == v[1]]})
+        for rc in run_chunks:
+            all_chunks += rc
+    if spec.get("post_filter"):
+        viol_records = spec["post_filter"](viol_records, profiles[0], log)
     # report
     known = load_known()
     new_viol = 0
@@ -272,10 +293,11 @@ def run_property(pid, tier, seed, replay=None):
         # keep disk usage down: traces are only needed for reported violations (already copied)
         for ch in all_chunks:
             os.remove(ch)
-        try:
-            os.remove(script)
-        except OSError:
-            pass
+        for sc in scripts:
+            try:
+                os.remove(sc)
+            except OSError:
+                pass
     if tool_errors:
         for e in tool_errors:
             log("TOOL-ERROR: " + e)
@@ -311,6 +333,11 @@ def main(argv):
     try:
         if cmd == "setup":
             build(["checked", "fast"])
+            return 0
+        if cmd == "manifest":
+            from . import manifest
+            m = manifest.build()
+            log("MANIFEST.json: %d checks, %d not_applicable" % (len(m["checks"]), len(m.get("not_applicable", []))))
             return 0
         if cmd in PROPS:
             return run_property(cmd, tier, seed, replay)
